@@ -35,5 +35,6 @@ Scenarios == {
 ScenInit == /\ tab = McTab /\ phase = "build" /\ sheet0 = <<>>
             /\ \E s \in Scenarios : vdef = s[1] /\ rules = s[2]
             /\ i = 1 /\ acc = 0 /\ tuned = 0 /\ failed = 0 /\ cards = {} /\ failedSel = {} /\ rootDirty = {}
+            /\ hackAt = 0 /\ aborted = FALSE
 ScenSpec == ScenInit /\ [][Start \/ Process \/ Post]_vars
 ====
